@@ -196,7 +196,7 @@ class C13(Sim):
     def _inputs(self, rng, sp, e, vector_ok) -> dict:
         k = rng.choice([1, 1, 1, 2, 4]) if vector_ok else 1
         return {"op": "inputs", "e": e, "rows": [S.draw_row(rng, sp, rng.choice([0.05, 0.2, 0.4])) for _ in range(k)],
-                "setter": rng.choice(["vars", "vars", "matrix"])}
+                "setter": rng.choice(["vars", "vars", "matrix", "np0d", "npfloat"])}
 
     def _crash_cases(self, rng, sp, vector_ok, tier) -> Iterator[dict]:
         pre = [self._inputs(rng, sp, 0, vector_ok), {"op": "process", "e": 0}]
@@ -320,9 +320,16 @@ class C13(Sim):
                     t = toggled.get(idx, [])
                     if len(t) >= 2 and t[-1][1] == t[-2][1] and len(hist) >= 4 and hist[-2][:3] == "tog" and hist[-3][:3] == "pro" and hist[-4][:3] == "tog":
                         st.hit("probes.toggle_process_restore_process")
+                inputs_before = [EO.cv(iv.value) for iv in L.engine.input_variables] if k in ("process", "abort") else None
                 r_real = apply_single(L.engine, op)
                 r_shadow = apply_single(L.shadow, op)
                 L.log.append(op)
+                if inputs_before is not None and not (k == "abort" and op["inj"]["kind"] == "vector"):
+                    # "the outputs of a step depend only on the input values of that step" presupposes that the step
+                    # does not rewrite them (aliasing of a caller-supplied mutable scalar / array)
+                    if [EO.cv(iv.value) for iv in L.engine.input_variables] != inputs_before:
+                        v = viol("process_changed_the_input_values", i, role=role, before=str(inputs_before)[:200],
+                                 after=str([EO.cv(iv.value) for iv in L.engine.input_variables])[:200])
                 if k == "abort":
                     exc, fired = r_real
                     if exc is not None:
@@ -336,7 +343,9 @@ class C13(Sim):
                     st.hit("outcomes.processed" if r_real is None else "outcomes.process_raised_" + str(r_real))
                     if seen_epoch:
                         interesting = True
-                if r_real != r_shadow:
+                if v is not None:
+                    pass
+                elif r_real != r_shadow:
                     v = viol("engine_and_fresh_twin_disagree_on_exception", i, engine=str(r_real), twin=str(r_shadow), role=role, opkind=k)
                 else:
                     d = EO.snap_diff(EO.snapshot(L.engine, flags=False), EO.snapshot(L.shadow, flags=False))
